@@ -231,10 +231,11 @@ MANIFEST = dict(
          "conditions (insert: range, alignment and REPRESENTABILITY - new size <= isize::MAX and every pointer target that moves stays "
          "below 2^64, the check of fix 0edd128 / finding F24; remove: range and alignment for arguments below 2^64), every other request "
          "rejected with one of two error kinds, never a panic; a second model of allocate in MACHINE arithmetic (add_w 64, checked and "
-         "wrapping profile) in the statement order of the code that returns the archive the caller is left with is proved equal to the "
-         "functional one for both profiles - so 'rejected and the archive unchanged' is a theorem that fails for the code before the fix "
-         "(Example: panic after the splice / wrapped target) -, relocated targets and keys are usize values again, deallocate's usize "
-         "subtractions are exact (operands >= addr + n); exact relocation through the maps kappa (strings, pointer cells, pending c-string "
+         "wrapping profile, on EVERY key and target) in the statement order of the code that returns the archive the caller is left with is "
+         "proved equal to the functional one for both profiles on archives whose keys are <= size - an invariant proved for ALL histories "
+         "of API calls, aligned or not (C03_keys_invariant) - so 'rejected and the archive unchanged' is a theorem that fails for the code "
+         "before the fix (Example: panic after the splice / wrapped target) -, relocated targets and keys are usize values again, "
+         "deallocate's usize subtractions are exact (operands >= addr + n); exact relocation through the maps kappa (strings, pointer cells, pending c-string "
          "cells) and tau (labels, pointer targets; inclusive iff ge) with DOMAIN EQUALITIES - every key of the new maps is the image of an "
          "old key, nothing lost or invented - and duplicate-free key lists stay duplicate-free (no two annotations merged), removal of "
          "exactly the annotations in a deallocated range and the pointers into it, truncation removing everything at or beyond the cut, "
@@ -247,9 +248,9 @@ MANIFEST = dict(
     note=TB + "Modelled, not verified: HashMap (association lists, order unobservable), Vec::splice/drain (A-std). Insert/append amounts that are "
               "ACCEPTED (new size <= isize::MAX) but exceed available memory abort the process in the allocator: resource exhaustion, outside "
               "the property, not generated; above isize::MAX allocate rejects (proved, tested) while allocate_at_end never returns (hypothesis "
-              "of C03_append_always). Annotation keys (cells, label addresses) are <= size by validation at write time (C03_invariant, "
-              "C03_allocate_keys_usize for cell-aligned histories), so their relocation sums are plain sums in the model; pointer targets are "
-              "arbitrary usize values and are handled in machine arithmetic. 'Unchanged on rejection' for deallocate/truncate is by the "
+              "of C03_append_always). The extracted (compared) allocate is the functional one with plain sums; the machine-arithmetic model is tied to it by "
+              "proof (C03_allocate_steps_agree), not by extraction. Annotation keys (cells, label addresses) are <= size in every reachable "
+              "archive (C03_keys_invariant); pointer targets are arbitrary usize values. 'Unchanged on rejection' for deallocate/truncate is by the "
               "outcome type (all checks precede the first mutation in the code, the later arithmetic is proved exact) and tied by leg K. "
               "Strings are Shift-JIS encoded bytes (A-codec).",
     technique="Coq proof (injectivity of the relocation maps, map/filter lemmas on association lists, refinement of a machine-arithmetic step model, induction over histories) + extracted-model differential check",
